@@ -15,3 +15,4 @@ import NdonnxVerif.Props.C07
 import NdonnxVerif.Props.C01
 import NdonnxVerif.Props.C16
 import NdonnxVerif.Driver.Heap
+import NdonnxVerif.Props.C06
